@@ -10,10 +10,8 @@ Model/Codec — the body codecs of `/repo/codec`:
 * `codec.go` registry, and `socket/message.go` `MarshalBody/UnmarshalBody`.
 
 The model is *as coded*: the form codec appends slice/array elements first to last
-(`for i := 0; i < Len(); i++`), `setBoolField` swallows its parse error, the array arm of
-`mapFormToStruct` returns an error when there are more values than array slots before it touches
-`structField.Index(i)` (the `panic` outcome of an out-of-range index stays explicit in the loop
-and is proved unreachable), narrow integers wrap in the plain codec
+(`for i := 0; i < Len(); i++`), `setBoolField` swallows its parse error, `structField.Index(i)`
+is not guarded (explicit `panic` outcome), narrow integers wrap in the plain codec
 (`ParseInt(s,10,64)` then `SetInt`).  Floats, pointers, maps, `time.Time` fields are outside the
 value universe (`Sc.other` stands for a value of a kind the two codecs do not understand).
 Core Lean only.
@@ -387,21 +385,16 @@ def setScalar (k : Kind) (s : Bytes) (cur : Sc) : Outcome Sc :=
   | .bytes => .err                    -- "Unknown type" (reflect.Slice)
   | .other => .err                    -- "Unknown type"
 
-/-- the loop of the array arm: `for i < numElems { setWithProperType(elemKind, in[i], field.Index(i)) }`.
+/-- the array arm: `for i < numElems { setWithProperType(elemKind, in[i], field.Index(i)) }`.
     `field.Index(i)` is evaluated first and panics when `i ≥ Len()`. -/
-def setArrayLoop (ek : Kind) : List Bytes → List Sc → Outcome (List Sc)
+def setArray (ek : Kind) : List Bytes → List Sc → Outcome (List Sc)
   | [], slots => .ok slots
   | _ :: _, [] => .panic
   | x :: xs, s :: slots =>
     match setScalar ek x s with
-    | .ok s' => (setArrayLoop ek xs slots).map (s' :: ·)
+    | .ok s' => (setArray ek xs slots).map (s' :: ·)
     | .err => .err
     | .panic => .panic
-
-/-- the array arm: `if numElems > field.Len() { return error }`, then the loop. The bound is
-    checked before any element is written. -/
-def setArray (ek : Kind) (vals : List Bytes) (slots : List Sc) : Outcome (List Sc) :=
-  if slots.length < vals.length then .err else setArrayLoop ek vals slots
 
 /-- the slice arm: `MakeSlice(numElems)` then element by element. -/
 def setSlice (ek : Kind) : List Bytes → Outcome (List Sc)
